@@ -217,6 +217,7 @@ var polNumbers = []string{
 	"d3fd3333333333334", "d3fd3333333333333", "d7ff8000000000001", "d7ff0000000000000", "dfff0000000000000",
 	"i0", "i1", "i-1", "i2", "i9007199254740991", "i-9007199254740991", "i2147483648", "i-2147483648",
 	"i9223372036854775807", "i-9223372036854775808",
+	"i9223372036854775808", "i18446744073709551615", // unsigned values beyond int64: AsInt fails on these (C09)
 }
 
 var polOps = []string{"eq", "gt", "ge", "lt", "le"}
@@ -284,6 +285,16 @@ func runPolicyStream(c *ctx) error {
 			for _, op := range polOps {
 				c.emitG("pol.match P(c"+op+"("+hxs(".")+","+a+")) L "+b, "policy.compare", func(string) bool { return true },
 					func(g string) []string { return []string{"compare:" + strings.ReplaceAll(g, " ", "")} })
+			}
+		}
+	}
+	// integers beyond int64 nested in the data and in the policy value: never equal, never ordered, no panic
+	for _, pair := range [][2]string{{"l(i1,i18446744073709551615)", "l(i1,i18446744073709551615)"}, {"l(i1,i2)", "l(i1,i9223372036854775808)"}, {"l(i1,i2)", "l(i3,i9223372036854775808)"},
+		{"m(61:i1)", "m(61:i9223372036854775808)"}, {"m(61:i9223372036854775808,62:i1)", "m(61:i1,62:i1)"}, {"i1", "m(61:l(i9223372036854775808))"}} {
+		for _, op := range polOps {
+			for _, sel := range []string{".", ".a", ".[1]", ".a?", ".[]"} {
+				c.emitG("pol.match P(c"+op+"("+hxs(sel)+","+pair[0]+")) L "+pair[1], "policy.compare", func(string) bool { return true },
+					func(g string) []string { return []string{"compare-beyond-int64:" + strings.ReplaceAll(g, " ", "")} })
 			}
 		}
 	}
